@@ -194,15 +194,20 @@ CLAIMS = {
    note="Trusted: pyvc encoding, z3 string theory; event() contract (C11/C09); write-once _error (C09). Open known finding: automatic "
         "names of classes called 'ext'/'ext_*' begin with '_ext_'. Assumption A-C14: filters do not rewrite 'source'."),
  'C15': dict(
-   text="Circuit._validate_blk (resolution by cases: Const kept, known name -> block of that name, '_ctrl' / '_not_NAME' shortcuts create the "
-        "block once under that name with NAME as the inverter's input, plain values become Const, foreign blocks and unknown names are "
-        "errors), finalize (idempotent, sets the flag), check_not_finalized / addblock / set_persistent_data (frozen after finalisation or "
-        "shutdown, duplicate names, non-blocks), findblock, and _BlockResolver._check_type/register/resolve (every queued reference is "
-        "resolved by name and checked against the kind required by that very reference) are executed from the real AST; lemma one_inverter; "
-        "scans: writers of _finalized, oconnections/iconnections mutated only by _finalize, the resolver's registration sites.",
-   note="Trusted: pyvc encoding, z3. NOT under contract: Circuit._finalize (the biconditional between oconnections, iconnections and inputs), "
-        "CBlock.connect/check_signature/get_conf - these clauses are covered only by the bounded search (206 small circuits + error families), "
-        "labelled bounded."),
+   text="Circuit._finalize (two passes, four nested loops cut by invariants, a ghost position array for the collected inputs) is executed "
+        "from the real AST: for all blocks A, B the output connections of A contain B exactly if the input connections of B contain A; "
+        "every combinational block given by the user, and every inverter existing when the second pass starts, ends with all its inputs "
+        "resolved (single or group: Const objects or blocks registered in this circuit under their own names) and with every block among "
+        "them as an input connection; Const objects are never connected; registered blocks stay registered.  Circuit._validate_blk "
+        "(resolution by cases: Const kept, known name -> block of that name, '_ctrl' / '_not_NAME' shortcuts create the block once "
+        "under that name with NAME as the inverter's input, plain values become Const, foreign blocks and unknown names are errors; "
+        "summary clauses used by _finalize proved on the same body), the validate_output wrapper, finalize (idempotent, sets the "
+        "flag), check_not_finalized / addblock / set_persistent_data (frozen after finalisation or shutdown), findblock, and "
+        "_BlockResolver._check_type/register/resolve; lemma one_inverter; scans: writers of _finalized, oconnections/iconnections mutated "
+        "only by _finalize, the resolver's registration sites.",
+   note="Trusted: pyvc encoding, z3; Const and Block are disjoint classes.  Bounded only (206 small circuits + error families): the converse "
+        "'an input connection is one of the block's resolved inputs', 'no block is created in the second pass', CBlock.connect/"
+        "check_signature/get_conf."),
  'C16': dict(
    text="Event.send (filter loop with an inductive invariant over the pipeline fold), not_from_undef, Edge, Delta, IfOutput, "
         "IfNotIitialized, every DataEdit edit closure (add, setdefault, add_output, copy, rename, delete, permit, modify), the eight "
